@@ -1,4 +1,6 @@
 """C05 - buffer contract: capacity, level, FIFO order, minimum delay."""
+import math
+
 from . import register
 from ..census import leaves_of
 
@@ -15,6 +17,7 @@ class Buffers:
         self.waited = 0
         self.departures = 0
         self.batches = 0
+        self.decimal = bool(ctx.spec.get('decimal'))
 
     def on_event(self, env, head):
         ctx, m = self.ctx, self.m
@@ -60,11 +63,16 @@ class Buffers:
                 ctx.count('buffer_departures')
                 if t0 is None:
                     continue
-                if now - t0 < delay:
+                early = delay - (now - t0)
+                if self.decimal:
+                    # the statement grants one unit of rounding of the clock; the arithmetic chain in
+                    # Buffer can accumulate two: 4 ulp of the clock is never a reason to alarm
+                    early -= 4 * math.ulp(max(now, 1e-300))
+                if early > 0:
                     ctx.report('min_delay', f'buffer {b}: part {p.name} arrived {t0!r}, left {now!r}, minimum '
                                f'delay {delay!r}')
                     return
-                if now - t0 > delay:
+                if now - t0 > delay + (4 * math.ulp(max(now, 1e-300)) if self.decimal else 0):
                     self.waited += 1
                     ctx.count('buffer_departures_after_waiting_for_downstream')
             for p in new:
